@@ -570,6 +570,9 @@ class Run:
         elif isinstance(c, SList):
             idx = self.index(c, k)
             c.store(idx, pack(v, c.typ.e))
+            mir = getattr(c, 'mirror', None)
+            if mir is not None:
+                mir[0].store(idx, mir[1])
         else:
             raise Unsupported(f"item store on {c}")
 
@@ -1261,7 +1264,7 @@ class Run:
             res = recv
         elif constructing:
             res = newobj
-        elif fs.ret is not None and fs.pure and not self.qstack and _packable(recv, a, fs):
+        elif fs.ret is not None and fs.pure and _packable(recv, a, fs):
             rs = pack(recv) if recv is not None else None
             ats = [pack(a[p], fs.params.get(p)) for p in fs.params]
             f = spec.pure_fn(fs, rs.sort() if rs is not None else None, [t.sort() for t in ats])
